@@ -1,1 +1,17 @@
-fn main() {}
+//! Monitors over the real fetch protocol (radicle-fetch) against hostile serving repositories:
+//! C01 (replicated refs match signed refs), C02 (delegate threshold, no sigrefs rewind).
+mod fx;
+mod scen;
+
+fn main() {
+    vcommon::install_panic_hook();
+    let args = vcommon::Args::parse();
+    match args.prop.as_str() {
+        "C01" => scen::run(&args, "C01"),
+        "C02" => scen::run(&args, "C02"),
+        p => {
+            eprintln!("h-fetch: unknown property {p}");
+            std::process::exit(2);
+        }
+    }
+}
